@@ -260,7 +260,7 @@ func c15(c *Ctx) {
 				switch x := ref.(type) {
 				case *ssa.FieldAddr, *ssa.DebugRef:
 				case *ssa.Call:
-					if !strings.HasSuffix(core.CalleeName(x.Common()), ".getTlsConfigForClient") {
+					if !isListenerCallbackFactory(c, x.Common()) {
 						okUse = false
 						bad = append(bad, core.CalleeName(x.Common()))
 					}
@@ -626,7 +626,7 @@ func c16(c *Ctx) {
 			// same clientInfo as given to the callback of this tls.Server
 			okSame := false
 			for _, ref := range *ci.Referrers() {
-				if cc, ok := ref.(*ssa.Call); ok && strings.HasSuffix(core.CalleeName(cc.Common()), ".getTlsConfigForClient") {
+				if cc, ok := ref.(*ssa.Call); ok && isListenerCallbackFactory(c, cc.Common()) {
 					okSame = true
 				}
 			}
